@@ -189,7 +189,12 @@ type vzStruct struct{ A int8 } // IsZero with a value receiver
 
 func (v vzStruct) IsZero() bool { return v.A == 0 }
 
+type zSlice []int8 // named slice whose IsZero says "empty" although it has elements
+
+func (z zSlice) IsZero() bool { return len(z) > 0 && z[0] == 0 }
+
 type folderFields struct {
+	ZL zSlice        `struct:"zl,omitempty"`
 	P  *valF         // nil: null
 	Q  *ptrF         // nil: null
 	I  gotype.Folder // nil: null
@@ -225,6 +230,14 @@ func FOLD_FolderFields(h *rt.H) {
 		f := folderFields{V: valF{x}, W: ptrF{x}}
 		want = []ev.Event{{K: ev.ObjStart}}
 		add := func(k string, evs []ev.Event) { want = append(append(want, key(k)), evs...) }
+		// omitempty on a named slice with IsZero: empty if it has no elements or says so
+		switch h.Choose("ZL", 0, 2) {
+		case 1:
+			f.ZL = zSlice{0, 1} // IsZero() == true: omitted
+		case 2:
+			f.ZL = zSlice{1}
+			add("zl", []ev.Event{{K: ev.ArrStart}, sNum(1), {K: ev.ArrEnd}})
+		}
 		if h.Choose("P", 0, 1) == 1 {
 			f.P = &valF{x}
 			add("p", vfEv(x))
@@ -370,6 +383,10 @@ func FOLD_Kinds(h *rt.H) {
 
 type ufT struct{ A int8 }
 
+type ufMap map[string]int8
+
+type ufObj struct{ X int8 }
+
 type ufOuter struct {
 	P *ufT
 	V ufT
@@ -399,7 +416,7 @@ func FOLD_UserFolders(h *rt.H) {
 	key := func(k string) ev.Event { return ev.Event{K: ev.Key, Str: []byte(k)} }
 	var v interface{}
 	var want []ev.Event
-	switch h.Choose("where", 0, 8) {
+	switch h.Choose("where", 0, 12) {
 	case 0:
 		v, want = &t, []ev.Event{e}
 	case 1:
@@ -424,9 +441,40 @@ func FOLD_UserFolders(h *rt.H) {
 		v, want = map[string]ufT{"k": t}, []ev.Event{{K: ev.ObjStart}, key("k"), e, {K: ev.ObjEnd}}
 	case 8:
 		v, want = &pt, []ev.Event{e}
+	case 9: // a folder registered for a map type, value in a struct passed by value
+		v = struct {
+			A int8
+			M ufMap
+		}{x, ufMap{"k": 1}}
+		want = []ev.Event{{K: ev.ObjStart}, key("a"), sNum(int64(x)), key("m"), sNum(2001), {K: ev.ObjEnd}}
+	case 10: // ... at top level, in a slice, behind a pointer
+		v, want = ufMap{"k": 1, "l": 2}, []ev.Event{sNum(2002)}
+	case 11:
+		m := ufMap{"k": 1}
+		v, want = []interface{}{m, &m, []ufMap{m}}, []ev.Event{{K: ev.ArrStart}, sNum(2001), sNum(2001), {K: ev.ArrStart}, sNum(2001), {K: ev.ArrEnd}, {K: ev.ArrEnd}}
+	case 12: // an inlined field whose type has a registered folder emitting an object
+		v = struct {
+			A int8
+			B ufObj `struct:",inline"`
+			Z int8
+		}{x, ufObj{x}, 3}
+		want = []ev.Event{{K: ev.ObjStart}, key("a"), sNum(int64(x)), key("custom"), sNum(int64(x)), key("z"), sNum(3), {K: ev.ObjEnd}}
+	}
+	mapFolder := func(m *ufMap, v structform.ExtVisitor) error { return v.OnInt16(2000 + int16(len(*m))) }
+	objFolder := func(o *ufObj, v structform.ExtVisitor) error {
+		if err := v.OnObjectStart(1, structform.AnyType); err != nil {
+			return err
+		}
+		if err := v.OnKey("custom"); err != nil {
+			return err
+		}
+		if err := v.OnInt8(o.X); err != nil {
+			return err
+		}
+		return v.OnObjectFinished()
 	}
 	var rec ev.Recorder
-	it, err := gotype.NewIterator(&rec, gotype.Folders(folder))
+	it, err := gotype.NewIterator(&rec, gotype.Folders(folder, mapFolder, objFolder))
 	h.Assert("iterator-created", err == nil)
 	if err != nil {
 		return
